@@ -60,6 +60,10 @@ def run(ctx):
         ("BCH(15,7)", lambda: E.BCHCodeEncoder(mu=4, delta=5), [("BerlekampMasseyDecoder", lambda e: D.BerlekampMasseyDecoder(e), "hard", False)]),
         ("ReedMuller(1,3)", lambda: E.ReedMullerCodeEncoder(1, 3), [("ReedMullerDecoder", lambda e: D.ReedMullerDecoder(e), "hard", True)]),
         ("Cyclic(7,x^3+x+1)", lambda: E.CyclicCodeEncoder(code_length=7, generator_polynomial=0b1011), [("SyndromeLookupDecoder", lambda e: D.SyndromeLookupDecoder(e), "hard", True)]),
+        # codes of the same class and size as an earlier one, in the same process
+        ("Cyclic(7,x^3+x^2+1)", lambda: E.CyclicCodeEncoder(code_length=7, generator_polynomial=0b1101), [("SyndromeLookupDecoder", lambda e: D.SyndromeLookupDecoder(e), "hard", True)]),
+        ("Hamming(3,right)", lambda: E.HammingCodeEncoder(mu=3, information_set="right"), [("SyndromeLookupDecoder", lambda e: D.SyndromeLookupDecoder(e), "hard", True), ("BruteForceMLDecoder", lambda e: D.BruteForceMLDecoder(e), "hard", False)]),
+        ("BCH(15,5)", lambda: E.BCHCodeEncoder(mu=4, delta=7), [("BerlekampMasseyDecoder", lambda e: D.BerlekampMasseyDecoder(e), "hard", False)]),
         ("SingleParityCheck(4)", lambda: E.SingleParityCheckCodeEncoder(4), [("WagnerSoftDecisionDecoder", lambda e: D.WagnerSoftDecisionDecoder(e), "soft", True)]),
         ("LDPC(6,3)", lambda: E.LDPCCodeEncoder(check_matrix=H63), [("BeliefPropagationDecoder", lambda e: D.BeliefPropagationDecoder(e, bp_iters=10), "soft", False), ("MinSumLDPCDecoder", lambda e: D.MinSumLDPCDecoder(e, bp_iters=10), "soft", False)]),
         ("Polar(4,8)", lambda: E.PolarCodeEncoder(4, 8), [("SuccessiveCancellationDecoder", lambda e: D.SuccessiveCancellationDecoder(e), "soft", False), ("BeliefPropagationPolarDecoder", lambda e: D.BeliefPropagationPolarDecoder(e, bp_iters=20), "soft", False)]),
@@ -67,7 +71,6 @@ def run(ctx):
     codes.append(("Hamming(4)", lambda: E.HammingCodeEncoder(mu=4), [("SyndromeLookupDecoder", lambda e: D.SyndromeLookupDecoder(e), "hard", True), ("BruteForceMLDecoder", lambda e: D.BruteForceMLDecoder(e), "hard", False)]))
     if not quick:
         codes += [("Golay(23,12)", lambda: E.GolayCodeEncoder(), [("SyndromeLookupDecoder", lambda e: D.SyndromeLookupDecoder(e), "hard", True)]),
-                  ("BCH(15,5)", lambda: E.BCHCodeEncoder(mu=4, delta=7), [("BerlekampMasseyDecoder", lambda e: D.BerlekampMasseyDecoder(e), "hard", False)]),
                   ("Golay(23,12)/ML", lambda: E.GolayCodeEncoder(), [("BruteForceMLDecoder", lambda e: D.BruteForceMLDecoder(e), "hard", False)])]
     modems = [("BPSK", lambda: (M.BPSKModulator(), M.BPSKDemodulator()), 1), ("QPSK", lambda: (M.QPSKModulator(), M.QPSKDemodulator()), 2)]
     for o in (4, 8, 16):
@@ -163,8 +166,9 @@ def run(ctx):
                     pats = []
                     for w in range(1, t + 1):
                         combos = list(itertools.combinations(range(n), w))
-                        if len(combos) > (40 if quick else 400):
-                            combos = rng.sample(combos, 40 if quick else 400)
+                        cap = (600 if mname == "BPSK" else 40) if quick else (3000 if mname == "BPSK" else 400)      # every position pattern over BPSK for n <= 15, t <= 3
+                        if len(combos) > cap:
+                            combos = rng.sample(combos, cap)
                         pats += combos * (8 if k > 8 else 1)      # large codebooks: several messages per pattern
                     sel = [rows[rng.randrange(len(rows))] for _ in pats]
                     xin = torch.tensor(sel, dtype=torch.float32)
